@@ -418,10 +418,17 @@ def opts_kwargs(o):
 def run(chk, replay=None):
     text, info = tx_ilt.generate(common.REPO)
     gen_path = os.path.join(common.LEAN, 'Lcapy', 'Generated', 'ILTFlags.lean')
+    # the C10 driver links the C09 model (Spec `L`, Driver/C09.lean), whose generated table must be current as well
+    from translate import tx_laplace
+    ltext, _linfo = tx_laplace.generate(common.REPO)
+    lgen_path = os.path.join(common.LEAN, 'Lcapy', 'Generated', 'LaplaceTable.lean')
     with common.LakeLock():
         if not os.path.exists(gen_path) or open(gen_path).read() != text:
             with open(gen_path, 'w') as f:
                 f.write(text)
+        if not os.path.exists(lgen_path) or open(lgen_path).read() != ltext:
+            with open(lgen_path, 'w') as f:
+                f.write(ltext)
     chk.coverage['translator'] = {'status': 'ok' if not info['unparsed'] else 'partial', 'definitions': len(info['defs']),
                                   'unparsed': info['unparsed'], 'conjPartnerMustBeSimple': info['flag'],
                                   'keyOptions': info['keyOptions'], 'readOptions': info['readOptions'],
